@@ -182,3 +182,9 @@ pub mod test_helpers {
         TestServer::<Helper>::oneshot_success(req, handler).await
     }
 }
+
+#[cfg(all(test, feature = "ipa-verif"))]
+#[allow(dead_code, unused_imports, clippy::all, clippy::pedantic)]
+mod ipa_verif_hook {
+    include!(concat!(env!("IPA_VERIF_DIR"), "/hooks/handlers_query.rs"));
+}
